@@ -19,7 +19,9 @@ META = {
                  'actions': 'remove self | remove system j (earlier or later) | register a new system of priority '
                             '2,1,0,-1,-2 | remove and re-register a later (or earlier) system | remove a system and register a '
                             'different object under its id | clean_up() (self)',
-                 'timestep of the action': [0, 1]},
+                 'timestep of the action': [0, 1],
+                 'variants': 'systems comparing by value (__eq__ on id and priority) for replace/re-add; 40 systems in four '
+                             'priority bands with the actor / target at band boundaries and interiors'},
     'bounds': {'quick': 'one action per scenario', 'thorough': 'one and two actions (same or different actors) in the '
                'same timestep'},
     'assumptions': ['whether a system registered mid-timestep first runs in that timestep or the next is left open '
@@ -53,6 +55,25 @@ def scenarios(tier):
             for actor in range(n):
                 for act in actions_for(n, actor):
                     yield {'leg': 'one_action', 'prios': v, 't': t, 'acts': [dict(act, actor=actor)]}
+    # systems that compare by value: every replace / re-add scenario once more
+    for v in vectors(maxlen):
+        n = len(v)
+        for t in (0, 1):
+            for actor in range(n):
+                for act in actions_for(n, actor):
+                    if act['kind'] in ('replace', 'readd'):
+                        yield {'leg': 'eq_by_value', 'prios': v, 't': t, 'acts': [dict(act, actor=actor)],
+                               'eq_by_value': True}
+    # many systems (priority bands of ties): the acting system and its target at every band position
+    big = [3] * 10 + [2] * 10 + [1] * 12 + [0] * 8
+    for actor in (0, 5, 9, 10, 15, 21, 22, 31, 32, 39):
+        for target in (0, 4, 9, 14, 19, 20, 27, 33, 39):
+            for kind in ('remove', 'readd', 'replace'):
+                if kind == 'remove' or target != actor:
+                    yield {'leg': 'many_systems', 'prios': big, 't': 1,
+                           'acts': [{'kind': kind, 'target': target, 'actor': actor}]}
+        yield {'leg': 'many_systems', 'prios': big, 't': 1, 'acts': [{'kind': 'cleanup', 'actor': actor}]}
+        yield {'leg': 'many_systems', 'prios': big, 't': 0, 'acts': [{'kind': 'add', 'prio': 2, 'actor': actor}]}
     if tier == 'thorough':
         for v in vectors(4):
             n = len(v)
@@ -82,12 +103,17 @@ def run_scenario(case):
 
         def execute(self):
             events.append(('run', self.key))
-            if len(events) > 60:     # make a runaway timestep visible instead of looping forever
+            if len(events) > 60 + 3 * len(prios):     # make a runaway timestep visible instead of looping forever
                 raise Violation(f'timestep {model.systems.timestep} does not terminate: more than 60 events',
                                 expected='each system at most once', observed=events[:12] + ['...'])
             if model.systems.timestep == t_act:
                 for act in self.todo:
                     perform(self, act)
+
+    if case.get('eq_by_value'):
+        # system classes that compare by value (dataclass style): a replacement object equals the one it replaces
+        S.__eq__ = lambda a, b: isinstance(b, Core.System) and (a.id, a.priority) == (b.id, b.priority)
+        S.__hash__ = lambda a: hash((a.id, a.priority))
 
     objs = {}
     byid = {}         # id -> key of the object currently registered under it
@@ -145,15 +171,15 @@ def run_scenario(case):
         objs[f's{act["actor"]}'].todo.append(act)
 
     trace = []
-    for t in range(3):
+    for t in range(4 if len(prios) > 8 else 3):
         start_reg = dict(reg)
         del events[:]
         model.execute()
         ev = list(events)
         trace.append(ev)
         judge(t, start_reg, ev, dict(reg))
-    if model.timestep != 3:
-        raise Violation('clock is not 3 after three steps', expected=3, observed=model.timestep)
+    if model.timestep != (4 if len(prios) > 8 else 3):
+        raise Violation('clock differs from the number of steps', observed=model.timestep)
     return tuple(tuple(e) for ev in trace for e in ev)
 
 
